@@ -65,6 +65,10 @@ type Server struct {
 	stopping chan struct{}
 	aborted  bool
 	aborting chan struct{}
+	// closes aborting exactly once, without needing mu
+	abortingOnce *sync.Once
+	// closed when the reader goroutine has returned: no more responses will arrive
+	readDone chan struct{}
 	// The first error that occurred or nil
 	err   error
 	errMu sync.Mutex
@@ -153,6 +157,8 @@ func (s *Server) Start() error {
 	s.stopping = make(chan struct{})
 	s.aborted = false
 	s.aborting = make(chan struct{})
+	s.abortingOnce = new(sync.Once)
+	s.readDone = make(chan struct{})
 
 	s.ioGroup.Add(1)
 	go func() {
@@ -189,13 +195,16 @@ func (s *Server) Abort(err error) {
 }
 
 func (s *Server) abort() {
+	// Signal the abort before waiting for the lock. Stop holds the lock while it waits for pending requests
+	// and for the keepalive goroutine; once the writer is gone (the UDF died) those can only give up on
+	// s.aborting, so closing it under the lock would leave Stop waiting for them forever.
+	s.abortingOnce.Do(func() { close(s.aborting) })
 	s.mu.Lock()
 	defer s.mu.Unlock()
 	if s.aborted {
 		return
 	}
 	s.aborted = true
-	close(s.aborting)
 	if s.abortCallback != nil {
 		s.abortOnce.Do(s.abortCallback)
 	}
@@ -349,6 +358,15 @@ func (s *Server) doRequestResponse(req *agent.Request, respC chan *agent.Respons
 		return nil, s.err
 	case res := <-respC:
 		return res, nil
+	case <-s.readDone:
+		// The UDF closed its side: nothing will be read anymore. Take a response that made it just in time,
+		// otherwise give up instead of waiting (and making Stop wait) forever.
+		select {
+		case res := <-respC:
+			return res, nil
+		default:
+			return nil, errors.New("connection to the UDF was closed before it responded")
+		}
 	}
 }
 
@@ -660,6 +678,7 @@ func (s *Server) writeRequest(req *agent.Request) error {
 func (s *Server) readData() error {
 	defer func() {
 		close(s.outMsg)
+		close(s.readDone)
 	}()
 	for {
 		response, err := s.readResponse()
